@@ -60,6 +60,7 @@ func ZZ_C17_errorAccounting() {
 		c.ERS[0].Spec.Template.OwnerReferences = []metav1.OwnerReference{{APIVersion: "batch/v1", Kind: "Job", Name: "someone-else", UID: "uid-job", Controller: &ctrl}}
 	}
 	c.InjectFaults = true
+	c.InjectConflicts = true // a rejected status write may be an optimistic-locking conflict
 	_, err := zzReconcile(zzReconciler(c, false), zzNS, rsNew.Name)
 
 	failedCreate, failedDelete, failedCleanup, failedStatus := 0, 0, 0, false
